@@ -531,6 +531,10 @@ def _stream_caller(ctx: Ctx) -> None:
                     env0[t.id] = None
     av0 = edges_under(cfg, ca.node, env0, only=[g for g in walk_scope(ca.node) if isinstance(g, ast.If) and g not in has_ifs]) if env0 else set()
     r2 = cfg.reach({cfg.entry}, rd, skip | av0)
+    ctx.check(not any(cfg.attempt(rt) & r2 for rt in rets), "RF-PAIR", "stream-open:session-registered-before-return", ca, rets[0],
+              ok="the session handed to the caller is registered on the pooled transport first (so close() can see whether it was closed)",
+              bad="a session can be returned without being registered on the pooled transport although no earlier session occupies the slot: "
+              "if the caller abandons it, _PooledTransport.close() looks at a stale (closed) session or none and may report the transport clean")
     # an earlier session must not be forgotten
     reads = [x for x in attr_reads(ca.node, "_last_stream_session")]
     consulted = False
